@@ -24,6 +24,7 @@ CONSTANTS
   ResetSeparate = FALSE
   JumpToFirstAvailable = TRUE
   ReportOnlyIfBitSet = FALSE
+  ResendWithoutCheck = FALSE
 SPECIFICATION Spec
 VIEW View
 PROPERTIES Steps
